@@ -26,8 +26,12 @@ type c16Step struct {
 }
 
 type c16Case struct {
-	Pre   string    `json:"pre"` // content of the file before tailing begins ("" = file exists but empty, "-" = file does not exist)
-	Steps []c16Step `json:"steps"`
+	Pre string `json:"pre"` // content of the file before tailing begins ("" = file exists but empty, "-" = file does not exist)
+	// Patterns: how many log path patterns name the file (1: its absolute path;
+	// 2: also dir/*.log; 3: also dir/app.lo?). Each pattern has a poller of its
+	// own; they all see the file (re)appear at the same poll.
+	Patterns int       `json:"patterns,omitempty"`
+	Steps    []c16Step `json:"steps"`
 }
 
 type c16Info struct {
@@ -59,7 +63,14 @@ func runC16x(c c16Case, info *c16Info) *vstat.Failure {
 	sw, pw := newWaker(), newWaker()
 	logCount0 := expInt("log_count")
 	col := collect(lines)
-	_, err = tailer.New(ctx, &wg, lines, tailer.LogPatterns{path}, tailer.LogstreamPollWaker(sw), tailer.LogPatternPollWaker(pw))
+	patterns := tailer.LogPatterns{path}
+	if c.Patterns >= 2 {
+		patterns = append(patterns, filepath.Join(dir, "*.log"))
+	}
+	if c.Patterns >= 3 {
+		patterns = append(patterns, filepath.Join(dir, "app.lo?"))
+	}
+	_, err = tailer.New(ctx, &wg, lines, patterns, tailer.LogstreamPollWaker(sw), tailer.LogPatternPollWaker(pw))
 	if err != nil {
 		return vstat.Failf("tailer-new", "%v", err)
 	}
@@ -108,7 +119,7 @@ func runC16x(c c16Case, info *c16Info) *vstat.Failure {
 			live = 1
 		}
 		ok = await(5*time.Second, func() bool {
-			return pw.Waiting() == 1 && sw.Waiting() == live && expInt("log_count")-logCount0 == int64(live)
+			return pw.Waiting() == len(patterns) && sw.Waiting() == live && expInt("log_count")-logCount0 == int64(live)
 		})
 		if !ok {
 			info.barrierSlow++
@@ -160,6 +171,26 @@ func runC16x(c c16Case, info *c16Info) *vstat.Failure {
 		case "complete":
 			seq++
 			appendData(fmt.Sprintf("-c%d\n", seq))
+		case "burst":
+			// a burst that fills the stream's read buffer (128 KiB) exactly, once or
+			// twice, with fixed-width records, so that a read ends on a line end
+			// with no room left; optionally a short line right behind it
+			w := []int{64, 128, 512}[st.N%3]
+			total := 131072 * (1 + st.N/3%2)
+			var sb strings.Builder
+			sb.Grow(total + 16)
+			for written := 0; written < total; written += w {
+				seq++
+				rec := fmt.Sprintf("B%d", seq)
+				sb.WriteString(rec)
+				sb.WriteString(strings.Repeat(".", w-1-len(rec)))
+				sb.WriteByte('\n')
+			}
+			if st.N%2 == 1 {
+				seq++
+				fmt.Fprintf(&sb, "L%d\n", seq)
+			}
+			appendData(sb.String())
 		case "truncate":
 			must(os.Truncate(path, 0))
 			endGeneration()
@@ -285,10 +316,11 @@ func c16RunRaw(raw json.RawMessage) *vstat.Failure {
 }
 
 func TestC16(t *testing.T) {
-	st := vstat.New("C16", "histories on a real file tailed through tailer.New (one absolute path) with harness-controlled wakers: append line / CRLF line / several lines in one write / unterminated fragment / completion of a fragment, truncate in place, rename+create, copy+truncate, delete, re-create (empty), poll without change; the file may pre-exist with content incl. half a line or not exist at first. After every step the tailer is made to observe it (stream wake barrier, pattern poll barrier, log_count) and the delivered lines must equal the model's sequence exactly; finally tailing is stopped. non-trivial = a fragment pending when a generation ends, or >= 2 generation changes; distinct by history")
+	st := vstat.New("C16", "histories on a real file tailed through tailer.New (its absolute path, optionally also named by one or two overlapping glob patterns) with harness-controlled wakers: append line / CRLF line / several lines in one write / unterminated fragment / completion of a fragment / a burst of fixed-width records filling the 128 KiB read buffer exactly once or twice, truncate in place, rename+create, copy+truncate, delete, re-create (empty), poll without change; the file may pre-exist with content incl. half a line or not exist at first. After every step the tailer is made to observe it (stream wake barrier, pattern poll barrier, log_count) and the delivered lines must equal the model's sequence exactly; finally tailing is stopped. non-trivial = a fragment pending when a generation ends, or >= 2 generation changes; distinct by history")
 	st.Assumptions = []string{"a step counts as observed when every live stream and the pattern poller are back in Wake() and log_count matches the model", "every line carries a sequence number, so loss, duplication, merging and reordering are told apart"}
 	st.Run(t, c16RunRaw, func() {
-		ops := []string{"line", "line", "crlf", "multi", "frag", "frag", "complete", "truncate", "rotate", "copytruncate", "delete", "recreate", "poll"}
+		ops := []string{"line", "line", "crlf", "multi", "frag", "frag", "complete", "truncate", "rotate", "copytruncate", "delete", "recreate", "poll",
+			"line", "line", "crlf", "multi", "frag", "frag", "complete", "truncate", "rotate", "copytruncate", "delete", "recreate", "poll", "burst"}
 		var drop []string
 		if st.IsLive("C16-1") { // fragment re-delivered after truncation
 			drop = append(drop, "C16-1")
@@ -297,6 +329,7 @@ func TestC16(t *testing.T) {
 			var c c16Case
 			defer st.Guard(func() any { return c })
 			c.Pre = rapid.SampledFrom([]string{"", "", "old1\nold2\n", "old1\nhalf", "-"}).Draw(rt, "pre")
+			c.Patterns = rapid.SampledFrom([]int{1, 1, 2, 3}).Draw(rt, "patterns")
 			n := rapid.IntRange(1, vstat.Scale(12, 40)).Draw(rt, "nsteps")
 			for i := 0; i < n; i++ {
 				c.Steps = append(c.Steps, c16Step{Op: rapid.SampledFrom(ops).Draw(rt, "op"), N: rapid.IntRange(0, 5).Draw(rt, "n")})
@@ -306,6 +339,9 @@ func TestC16(t *testing.T) {
 			st.Eval()
 			for _, s := range c.Steps {
 				st.Class("op:" + s.Op)
+			}
+			if c.Patterns > 1 {
+				st.Class("overlapping-patterns")
 			}
 			if info.fragAtGenEnd > 0 {
 				st.Class("fragment-pending-at-generation-end")
